@@ -500,7 +500,7 @@ def run_real(gensquashfs, drv, specs, workdir):
         elif l:
             cur.append(l)
     outs += [None] * (len(prepared) - len(outs))
-    return [dict(spec=sp, comp=comp, rc=rc, stderr=err, ans=a) for (sp, comp, _, _), (rc, err), a in zip(prepared, packed, outs)]
+    return [dict(spec=sp, comp=comp, rc=rc, stderr=err, ans=a, img=img) for (sp, comp, _, img), (rc, err), a in zip(prepared, packed, outs)]
 
 
 def evaluate_real(ctx, results, st):
@@ -634,7 +634,9 @@ def evaluate(ctx, results):
     return st
 
 
-def stage(ctx, h_e2e, drv, rnd, quick, gensquashfs=None):
+def stage(ctx, h_e2e, drv, rnd, quick, gensquashfs=None, xreal=None):
+    """xreal: optional callable (real results, work directory) -> statistics; the section 8 leg (xreal_tie.py) that reads the
+    real-compressor images with read_all_real while they still exist"""
     t0 = time.time()
     n = 40 if quick else 600
     specs = [gen_spec(rnd.randrange(1 << 40)) for _ in range(n)]
@@ -644,10 +646,13 @@ def stage(ctx, h_e2e, drv, rnd, quick, gensquashfs=None):
     try:
         results = run_specs(h_e2e, drv, specs, work)
         real = run_real(gensquashfs, drv, specs[:(15 if quick else 150)], work) if gensquashfs else []
+        xst = xreal(real, work) if (xreal and gensquashfs) else None
     finally:
         shutil.rmtree(work, ignore_errors=True)
     st = evaluate(ctx, results)
     if gensquashfs:
         evaluate_real(ctx, real, st)
+    if xst is not None:
+        st["xreal"] = xst
     st["seconds"] = round(time.time() - t0, 1)
     return st
